@@ -16,8 +16,9 @@ EXTENDS Naturals, Sequences, FiniteSets, TLC, Json, IOUtils
 
 Depth == atoi(IOEnv.DEPTH)
 (* MODE (environment): "str"   - str-mode patterns over {a, b, e'} (e' is one character, two bytes);          *)
-(*                     "bytes" - utf8 = false patterns over {a, e', h, f}: h is a TRUNCATED multi-byte          *)
-(*                               sequence (E2 82, two bytes, not valid UTF-8), f the byte FF;                  *)
+(*                     "bytes" - byte-string patterns (utf8 = false) over {a, e', h, f}: e' is the two bytes     *)
+(*                               C3 A9, h a TRUNCATED multi-byte sequence (E2 82, not valid UTF-8), f the      *)
+(*                               byte FF; every literal byte counts;                                           *)
 (*                     "dot"   - str-mode patterns over {a, b, o} with the dot atom (o is matched by dot only) *)
 (*                               and lazy repetitions, for the greedy-dot rule of C19.                          *)
 Mode == IF "MODE" \in DOMAIN IOEnv THEN IOEnv.MODE ELSE "str"
@@ -52,21 +53,13 @@ Bounds == IF Mode = "dot" THEN {<<0, Inf>>, <<1, Inf>>, <<0, 1>>, <<2, 2>>, <<2,
           ELSE {<<0, Inf>>, <<1, Inf>>, <<0, 1>>, <<2, 2>>, <<1, 3>>, <<2, Inf>>, <<0, 0>>, <<3, 3>>}
 LazyBounds == IF Mode = "dot" THEN {<<0, Inf>>, <<1, Inf>>} ELSE {}
 
-(* In the bytes fragment the branches of an alternation never begin with the same literal symbol: the      *)
-(* pattern compiler factors a common literal prefix out of an alternation, and for a prefix that joins an     *)
-(* invalid run the rule does not say whether its units are counted before or after factoring.                 *)
-RECURSIVE First(_)
-First(x) == CASE x[1] = "lit" -> x[2][1]
-              [] x[1] = "cat" -> IF x[2][1] = "empty" THEN First(x[3]) ELSE First(x[2])
-              [] OTHER -> "-"
-AltOk(x, y) == Mode # "bytes" \/ First(x) = "-" \/ First(x) # First(y)
-Level1 == {Cat(x, y) : x \in Atoms, y \in Atoms} \cup {Alt(p[1], p[2]) : p \in {q \in Atoms \X Atoms : AltOk(q[1], q[2])}}
+Level1 == {Cat(x, y) : x \in Atoms, y \in Atoms} \cup {Alt(x, y) : x \in Atoms, y \in Atoms}
           \cup {Rep(x, b[1], b[2]) : x \in Atoms \ {Look, Empty}, b \in Bounds}
           \cup {Lazy(x, b[1], b[2]) : x \in Atoms \ {Look, Empty}, b \in LazyBounds}
           \cup (IF Mode = "dot" THEN {Cap(x) : x \in Atoms \ {Empty}} ELSE {})
 Level2 == {Rep(x, b[1], b[2]) : x \in Level1, b \in Bounds}
           \cup {Cat(x, y) : x \in Level1, y \in Atoms} \cup {Cat(x, y) : x \in Atoms, y \in Level1}
-          \cup {Alt(p[1], p[2]) : p \in {q \in (Level1 \X Atoms) \cup (Atoms \X Level1) : AltOk(q[1], q[2])}}
+          \cup {Alt(x, y) : x \in Level1, y \in Atoms} \cup {Alt(x, y) : x \in Atoms, y \in Level1}
 ASTs == Atoms \cup Level1 \cup (IF Depth >= 2 THEN Level2 ELSE {})
 
 Min2(a, b) == IF a < b THEN a ELSE b
@@ -74,32 +67,20 @@ Min2(a, b) == IF a < b THEN a ELSE b
 T(r) == r[1]
 Range(q) == {q[i] : i \in DOMAIN q}
 
-(* Units of a literal run: its characters when the run is valid UTF-8, its bytes otherwise (the only      *)
-(* meaning "literal character" can have for bytes that are no characters).  A run is the maximal sequence  *)
-(* of adjacent literals of a concatenation, which is what the pattern text denotes.                          *)
-ValidRun(w) == \A i \in DOMAIN w : w[i] \in {"a", "b", "e", "o"}
-Units(w) == IF ValidRun(w) THEN Len(w) ELSE ByteLen(w)
+(* Units of a literal: its characters in a str pattern, its bytes in a byte-string pattern (MODE = bytes),  *)
+(* whether or not those bytes happen to be valid UTF-8.                                                    *)
+Units(w) == IF Mode = "bytes" THEN ByteLen(w) ELSE Len(w)
 
-RECURSIVE Flat(_)
-Flat(r) == CASE T(r) = "cat" -> Flat(r[2]) \o Flat(r[3])
-             [] T(r) = "empty" -> <<>>
-             [] OTHER -> <<r>>
-
-RECURSIVE Complexity(_), CatC(_, _)
+RECURSIVE Complexity(_)
 Complexity(r) ==
   CASE T(r) = "lit"  -> 2 * Units(r[2])
     [] T(r) \in {"cls", "dot"} -> 2
-    [] T(r) = "cat"  -> CatC(Flat(r), <<>>)
+    [] T(r) = "cat"  -> Complexity(r[2]) + Complexity(r[3])
     [] T(r) = "alt"  -> Min2(Complexity(r[2]), Complexity(r[3]))
     [] T(r) \in {"rep", "lazy"} -> r[3] * Complexity(r[2])
     [] T(r) = "cap"  -> Complexity(r[2])
     [] T(r) = "look" -> 0
     [] T(r) = "empty" -> 0
-(* concatenation adds, over the items after merging adjacent literals into runs *)
-CatC(items, run) ==
-  IF items = <<>> THEN 2 * Units(run)
-  ELSE IF T(Head(items)) = "lit" THEN CatC(Tail(items), run \o Head(items)[2])
-  ELSE 2 * Units(run) + Complexity(Head(items)) + CatC(Tail(items), <<>>)
 
 RECURSIVE Matches(_, _), MatchRep(_, _, _, _)
 Matches(r, w) ==
